@@ -19,16 +19,31 @@
 //   C09  r.costs == self.costs + tour.costs; depot usage exact for the new vehicle, unchanged for all others, hence exact
 //        (usage_exact) for r; maintenance violation / rotation cycles: the postcondition of
 //        update_transitions_and_violation_fast (transitions_follow; other types' transitions untouched).
+//   C02  "for every real depot the number of vehicles starting there stays within the depot's total capacity and within the
+//        per-type capacity (types not listed for a depot never start there)": if the path does not start with a depot, the new
+//        vehicle's start depot node is a start depot node of the network that could spawn the type w.r.t. the OLD usage table
+//        (sp_can_spawn = the value can_depot_spawn_vehicle_custom_usage is verified to return, slices/admission.vs), hence
+//        (lemma_spawn_keeps_depot_limits over usage_exact_for / usage_same_except) that depot's per-type and total limits
+//        hold for the NEW usage table (depot_limits_hold).
+//   C13  WHICH depot: if the path does not start with a depot the tour starts at the NEAREST start depot node with room
+//        (best_start_depot: dead-head distance from the depot to the start location of the first node; ties: the one listed
+//        first); if it neither starts nor ends with a depot it ends at the nearest end depot node (nearest_end_depot;
+//        capacities ignored).  From the contracts under which slice depot_choice verifies the two find_best_* functions.
+//   C06  add_suitable_start_and_end_depot_to_path: refused only if the path does not end with a depot and the network has no
+//        end depot node; `expect("There should be at least the overflow depot available.")` cannot panic under the
+//        precondition some_depot_has_room (see PRECONDITIONS).
 //
 // ASSUMPTIONS introduced / used by this slice:
 //   A-stub   not verified in any slice, contract written from the body:
-//            Schedule::find_best_start_depot_for_spawning  (result is a member of network.start_depot_nodes),
-//            Schedule::find_best_end_depot_for_despawning  (Ok result is a member of network.end_depot_nodes),
 //            Schedule::can_depot_spawn_vehicle (NO contract: its result only selects the branch),
 //            VehicleTypes::get (= lookup in `vehicle_types`; contract text of env/limits_fns.vs)
 //   A-iter   Tour::all_nodes_iter yields the tour's nodes in order (stub returning SeqIter; text as in slices/json_writer.vs);
 //            env/seqiter.vs (`viter`, `any`), R5 on `path_as_vec.iter()`
 //   R7a stubs (verified elsewhere with the SAME contract text, hashes checked): Tour::new (tour_ctor),
+//            Schedule::find_best_start_depot_for_spawning, Schedule::find_best_end_depot_for_despawning (depot_choice; WITH
+//            their preconditions -- tools/stub_sync.py reports no difference; the vocabulary of these contracts is COPIED
+//            from env/depot_choice_shim.vs into this file, see the block after the includes for why it is not in
+//            env/spawn_vehicle_shim.vs),
 //            Schedule::update_train_formation (train_formation_update; R12: `moved_nodes` retyped to SeqIter<NodeIdx>),
 //            Schedule::update_depot_usage (depot_usage), Schedule::update_transitions_and_violation_fast (sched_guard);
 //            env/time_ops.vs, env/model_fns.vs, env/dist_ops.vs included trusted (slices time / network / tour_ctor)
@@ -63,14 +78,28 @@
 //   * costs <= 2^61 (C09 magnitude: `costs += tour.costs()` in u64);
 //   * the path is not empty (`nodes.first().unwrap()`), its nodes are nodes of the network, A-len (tour_len_ok);
 //   * (A-idwidth is gone: D11 -- Schedule::next_free_idx refuses when all 2^16 ids have been handed out);
-//   * A-counter: spawn_counter_ok (the uninterpreted maintenance counter of the new tour is within +-2^40).
+//   * A-counter: spawn_counter_ok (the uninterpreted maintenance counter of the new tour is within +-2^40);
+//   * NEW (preconditions of find_best_start_depot_for_spawning, slices/depot_choice.vs, handed up; NOT part of sv_ok, which
+//     other slices establish):
+//       - A-index: Network::start_depots_ok -- start_depot_nodes holds StartDepot nodes of the network whose depot is in the
+//         network's depot table (how Network::new fills the list; not proved in slice network_new);
+//     and, only if the path does not start with a depot (a start depot is chosen), for the schedule's own usage table:
+//       - magnitude: usage_counts_small -- for the depots of the start depot nodes the count of the type and the total over
+//         the network's types fit u32 (vehicle ids are 16 bit; follows from usage_exact + sv_ids_ok but is not derived here);
+//       - C06 / C17: some_depot_has_room -- SOME start depot node of the network can spawn the type w.r.t. the usage table;
+//         otherwise `expect("There should be at least the overflow depot available.")` panics.  It cannot be derived from
+//         schedule validity: the overflow depot's total capacity is a computed number (slices/network_new.vs, C17, D5).
+//         lemma_depot_without_type_limit_suffices: a start depot node whose depot lists the type without per-type limit (the
+//         overflow depot does) and where fewer vehicles start in total than its total capacity suffices.
+//     (Network::wf, has(first / last node), all_in_net(end_depot_nodes) were required already: sv_ok, depot_lists_ok.)
 //
 // NOT covered:
 //   * on Err nothing is claimed except the type guard; WHEN the result is Ok is not characterised (it is Ok iff the guard
 //     passes, an end depot exists, Tour::new accepts the nodes and every formation has room: follows from the callee
 //     contracts but is not stated); the error messages;
-//   * WHICH depot is put at the ends (nearest / available / overflow) -- only that it is a depot node list member of the
-//     network; panics inside the stubs (`expect("There should be at least the overflow depot available.")`);
+//   * WHICH depot is put at the ends if the path STARTS with a depot (the stub of can_depot_spawn_vehicle has no contract:
+//     either the given depot is kept and a missing end depot is the nearest one, or the overflow depot's nodes are used);
+//     that the callers establish some_depot_has_room (C17 is not connected to it);
 //   * that the result satisfies sv_ok again (invariant preservation) beyond what the postconditions state (usage_exact,
 //     sorted / matching listings, transitions consistent with the new tours); that the callers establish the preconditions;
 //   * D12 (fixed in /repo, `fix:` 56e2050): if the path starts with a depot that cannot spawn the vehicle, the unfixed
@@ -131,6 +160,268 @@ impl Clone for TransitionCycle {
 //@include env/schedule_shim.vs
 //@include env/sched_guard_shim.vs
 //@include env/spawn_vehicle_shim.vs
+
+// =====================================================================================================
+// the choice of a depot: vocabulary of the contracts of Schedule::find_best_start_depot_for_spawning /
+// find_best_end_depot_for_despawning.  TEXT COPIED from env/depot_choice_shim.vs (slice depot_choice verifies the two
+// functions against it), which cannot be included here: it declares UsageMap, sp_spawned, sp_despawned,
+// usage_same_except, Display of VehicleTypeIdx again (env/spawn_vehicle_shim.vs) and expects env/admission_shim.vs' im_set.
+// This block BELONGS INTO env/spawn_vehicle_shim.vs (the stubs of spawn_vehicle_for_path in other slices need it); it is
+// kept here because env/add_path_shim.vs, which slices/add_path.vs includes next to env/spawn_vehicle_shim.vs, holds a copy
+// of its first part (Depot::sp_capacity_for .. spawned_total) already.  No assumption: open spec functions and lemmas.
+// =====================================================================================================
+// ---- depot admission vocabulary (C02); in env/depot_choice_shim.vs copied from slices/admission.vs ----------------
+impl Depot {
+    /// C02: the number of vehicles of a type that may start at a depot: 0 if the type is not listed,
+    /// the depot's total capacity if it is listed without a limit, the smaller of both otherwise
+    pub open spec fn sp_capacity_for(&self, vt: VehicleTypeIdx) -> VehicleCount {
+        if !self.allowed_types@.contains_key(vt) { 0 }
+        else {
+            match self.allowed_types@[vt] {
+                Some(c) => if c <= self.total_capacity { c } else { self.total_capacity },
+                None => self.total_capacity,
+            }
+        }
+    }
+}
+impl Network {
+    pub open spec fn has_depot(&self, d: DepotIdx) -> bool { self.depots@.contains_key(d) }
+    pub open spec fn sp_depot(&self, d: DepotIdx) -> Depot { self.depots@[d].0 }
+    /// the depot a start / end depot node belongs to (the free function sp_depot_idx_of(net, n) of
+    /// env/spawn_vehicle_shim.vs has the same body)
+    pub open spec fn sp_depot_idx_of(&self, n: NodeIdx) -> DepotIdx {
+        match self.sp_node(n) {
+            Node::StartDepot((_, d)) => d.depot_idx,
+            Node::EndDepot((_, d)) => d.depot_idx,
+            _ => arbitrary(),
+        }
+    }
+}
+/// C02: "the number of vehicles [of a type] starting there"
+pub open spec fn spawned_of_type(du: UsageMap, d: DepotIdx, vt: VehicleTypeIdx) -> nat {
+    if du.contains_key((d, vt)) { du[(d, vt)].0@.len() } else { 0 }
+}
+pub open spec fn spawned_counts(du: UsageMap, d: DepotIdx, types: Seq<VehicleTypeIdx>) -> Seq<int> {
+    types.map_values(|vt: VehicleTypeIdx| spawned_of_type(du, d, vt) as int)
+}
+/// C02: "the number of vehicles starting there": the total over the given vehicle types
+pub open spec fn spawned_total(du: UsageMap, d: DepotIdx, types: Seq<VehicleTypeIdx>) -> int {
+    isum(spawned_counts(du, d, types))
+}
+// ---- the choice of a depot (env/depot_choice_shim.vs) -------------------------------------------------------------
+/// "at most as far as"
+pub open spec fn dist_le(a: Distance, b: Distance) -> bool { denc(a) <= denc(b) }
+impl Network {
+    /// the sort key of Network::start_depots_sorted_by_distance_to: the dead-head distance FROM the node d (its start
+    /// location; for a depot node: the depot's location) TO the given location
+    pub open spec fn dist_to(&self, d: NodeIdx, location: Location) -> Distance {
+        self.locations.sp_distance(self.sp_node(d).sp_start_location(), location)
+    }
+    /// the sort key of Network::end_depots_sorted_by_distance_from: the dead-head distance FROM the given location TO
+    /// the node d (the code reads its START location; for a depot node start and end location are the depot's location)
+    pub open spec fn dist_from(&self, location: Location, d: NodeIdx) -> Distance {
+        self.locations.sp_distance(location, self.sp_node(d).sp_start_location())
+    }
+    /// instance validity (A-index: how Network::new fills the list): the start depot node list holds StartDepot nodes
+    /// of the network whose depot is a depot of the network's depot table
+    pub open spec fn start_depots_ok(&self) -> bool {
+        forall|i: int| 0 <= i < self.start_depot_nodes@.len() ==> self.has(#[trigger] self.start_depot_nodes@[i])
+            && self.sp_node(self.start_depot_nodes@[i]) is StartDepot
+            && self.has_depot(self.sp_depot_idx_of(self.start_depot_nodes@[i]))
+    }
+}
+/// x occurs in `list` before some occurrence of y
+pub open spec fn listed_before(list: Seq<NodeIdx>, x: NodeIdx, y: NodeIdx) -> bool {
+    exists|a: int, b: int| #![trigger list[a], list[b]] 0 <= a < b < list.len() && list[a] == x && list[b] == y
+}
+impl Network {
+    /// the nearest end depot node (ties: the one listed first)
+    pub open spec fn nearest_end_depot(&self, r: NodeIdx, location: Location) -> bool {
+        &&& self.end_depot_nodes@.contains(r)
+        &&& forall|d: NodeIdx| #[trigger] self.end_depot_nodes@.contains(d) ==> dist_le(self.dist_from(location, r), self.dist_from(location, d))
+        &&& forall|d: NodeIdx| #[trigger] self.end_depot_nodes@.contains(d) && d != r && self.dist_from(location, d) == self.dist_from(location, r)
+                ==> listed_before(self.end_depot_nodes@, r, d)
+    }
+}
+impl Schedule {
+    /// C02 "no more vehicles start at a depot than its total and per-type capacity": the depot of the start depot node n
+    /// lists the type and has room for one more vehicle of it, per type and in total, w.r.t. the usage table du.  This is
+    /// (verbatim) the value Schedule::can_depot_spawn_vehicle_custom_usage is verified to return (slices/admission.vs)
+    pub open spec fn sp_can_spawn(&self, n: NodeIdx, vehicle_type: VehicleTypeIdx, du: UsageMap) -> bool {
+        let d = self.network.sp_depot_idx_of(n);
+        &&& self.network.sp_depot(d).sp_capacity_for(vehicle_type) > 0
+        &&& spawned_of_type(du, d, vehicle_type) < self.network.sp_depot(d).sp_capacity_for(vehicle_type)
+        &&& spawned_total(du, d, self.network.vehicle_types.ids_sorted@) < self.network.sp_depot(d).total_capacity
+    }
+    /// magnitude (`as VehicleCount` of a set size / the u32 sum over the types): the counts of the table fit u32 for the
+    /// depots of the network's start depot nodes (vehicle ids are 16 bit: a set has at most 2^17 members)
+    pub open spec fn usage_counts_small(&self, vehicle_type: VehicleTypeIdx, du: UsageMap) -> bool {
+        forall|i: int| 0 <= i < self.network.start_depot_nodes@.len() ==> {
+            let d = self.network.sp_depot_idx_of(#[trigger] self.network.start_depot_nodes@[i]);
+            &&& spawned_of_type(du, d, vehicle_type) <= u32::MAX
+            &&& spawned_total(du, d, self.network.vehicle_types.ids_sorted@) <= u32::MAX
+        }
+    }
+    /// C06: some start depot node of the network can spawn a vehicle of the type w.r.t. the table
+    pub open spec fn some_depot_has_room(&self, vehicle_type: VehicleTypeIdx, du: UsageMap) -> bool {
+        exists|i: int| 0 <= i < self.network.start_depot_nodes@.len() && self.sp_can_spawn(#[trigger] self.network.start_depot_nodes@[i], vehicle_type, du)
+    }
+    /// the nearest start depot node with room for one more vehicle of the type w.r.t. the table (ties: the one listed first)
+    pub open spec fn best_start_depot(&self, r: NodeIdx, vehicle_type: VehicleTypeIdx, location: Location, du: UsageMap) -> bool {
+        let sdn = self.network.start_depot_nodes@;
+        &&& sdn.contains(r)
+        &&& self.sp_can_spawn(r, vehicle_type, du)
+        &&& forall|d: NodeIdx| sdn.contains(d) && #[trigger] self.sp_can_spawn(d, vehicle_type, du)
+                ==> dist_le(self.network.dist_to(r, location), self.network.dist_to(d, location))
+        &&& forall|d: NodeIdx| sdn.contains(d) && #[trigger] self.sp_can_spawn(d, vehicle_type, du) && d != r
+                && self.network.dist_to(d, location) == self.network.dist_to(r, location) ==> listed_before(sdn, r, d)
+    }
+}
+// ---- sums: a count is at most the total (in env/depot_choice_shim.vs copied from slices/admission.vs) ---------------
+pub proof fn lemma_isum_bounds_lo(s: Seq<int>)
+    requires forall|i: int| 0 <= i < s.len() ==> 0 <= #[trigger] s[i],
+    ensures 0 <= isum(s),
+    decreases s.len(),
+{
+    if s.len() > 0 {
+        let t = s.drop_last();
+        assert forall|i: int| 0 <= i < t.len() implies 0 <= #[trigger] t[i] by { assert(t[i] == s[i]); }
+        lemma_isum_bounds_lo(t);
+    }
+}
+pub proof fn lemma_isum_nonneg_le(s: Seq<int>, k: int)
+    requires forall|i: int| 0 <= i < s.len() ==> 0 <= #[trigger] s[i], 0 <= k < s.len(),
+    ensures 0 <= s[k] <= isum(s),
+    decreases s.len(),
+{
+    let t = s.drop_last();
+    assert forall|i: int| 0 <= i < t.len() implies 0 <= #[trigger] t[i] by { assert(t[i] == s[i]); }
+    lemma_isum_bounds_lo(t);
+    if k < t.len() {
+        lemma_isum_nonneg_le(t, k);
+        assert(t[k] == s[k]);
+    }
+}
+// ---- C06: how a caller meets some_depot_has_room -- "at least the overflow depot" (text of slices/depot_choice.vs) ------
+/// A start depot node n of the network whose depot lists the type WITHOUT a per-type limit (the overflow depot lists every type
+/// of the network so: slices/network_new.vs, C17.overflow_depot.no_per_type_limit_for_any_type) can spawn a vehicle of the type
+/// as long as fewer vehicles start there in total than its total capacity -- then `expect` cannot panic.
+pub proof fn lemma_depot_without_type_limit_suffices(s: &Schedule, n: NodeIdx, vehicle_type: VehicleTypeIdx, du: UsageMap)
+    requires
+        s.network.start_depot_nodes@.contains(n),
+        // the type is one of the network's types (the total is the sum over them)
+        s.network.vehicle_types.ids_sorted@.contains(vehicle_type),
+        ({
+            let d = s.network.sp_depot_idx_of(n);
+            let dep = s.network.sp_depot(d);
+            &&& dep.allowed_types@.contains_key(vehicle_type) && dep.allowed_types@[vehicle_type] is None
+            &&& spawned_total(du, d, s.network.vehicle_types.ids_sorted@) < dep.total_capacity
+        }),
+    ensures
+        s.sp_can_spawn(n, vehicle_type, du),
+        s.some_depot_has_room(vehicle_type, du), // @obl C06.spawn_vehicle.a_depot_without_type_limit_and_room_in_total_suffices
+{
+    let d = s.network.sp_depot_idx_of(n);
+    let types = s.network.vehicle_types.ids_sorted@;
+    let c = spawned_counts(du, d, types);
+    let k = choose|k: int| 0 <= k < types.len() && types[k] == vehicle_type;
+    lemma_isum_nonneg_le(c, k);
+    assert(c[k] == spawned_of_type(du, d, vehicle_type));
+    let sdn = s.network.start_depot_nodes@;
+    let i = choose|i: int| 0 <= i < sdn.len() && sdn[i] == n;
+    assert(s.sp_can_spawn(sdn[i], vehicle_type, du));
+}
+// ---- C02: the depot limits still hold after the vehicle was booked at the chosen depot (text of slices/depot_choice.vs; the
+// parameter `can` with the copied postcondition of can_depot_spawn_vehicle_custom_usage is replaced by what sp_can_spawn
+// says itself, and the conclusion is named depot_limits_hold) ---------------------------------------------------------
+impl Schedule {
+    /// C02 "for every real depot the number of vehicles starting there stays within the depot's total capacity and within the
+    /// per-type capacity (types not listed for a depot never start there)", for the depot of the start depot node n and one
+    /// type, w.r.t. the usage table du
+    pub open spec fn depot_limits_hold(&self, n: NodeIdx, vehicle_type: VehicleTypeIdx, du: UsageMap) -> bool {
+        let d = self.network.sp_depot_idx_of(n);
+        let dep = self.network.sp_depot(d);
+        // "within the per-type capacity (types not listed for a depot never start there)"
+        &&& spawned_of_type(du, d, vehicle_type) <= dep.sp_capacity_for(vehicle_type)
+        &&& dep.allowed_types@.contains_key(vehicle_type)
+        &&& (dep.allowed_types@[vehicle_type] is Some ==> spawned_of_type(du, d, vehicle_type) <= dep.allowed_types@[vehicle_type].unwrap())
+        // "within the depot's total capacity"
+        &&& spawned_total(du, d, self.network.vehicle_types.ids_sorted@) <= dep.total_capacity
+    }
+}
+/// if b exceeds a by at most 1 at no more than one position and nowhere else, the sum grows by at most 1
+pub proof fn lemma_isum_one_more(a: Seq<int>, b: Seq<int>, k: int)
+    requires
+        a.len() == b.len(),
+        forall|i: int| 0 <= i < a.len() && i != k ==> #[trigger] b[i] <= a[i],
+        0 <= k < a.len() ==> b[k] <= a[k] + 1,
+    ensures
+        isum(b) <= isum(a) + (if 0 <= k < a.len() { 1int } else { 0int }),
+    decreases a.len(),
+{
+    if a.len() > 0 {
+        let n = a.len() - 1;
+        let a0 = a.drop_last();
+        let b0 = b.drop_last();
+        assert forall|i: int| 0 <= i < a0.len() && i != k implies #[trigger] b0[i] <= a0[i] by { assert(b[i] <= a[i]); }
+        lemma_isum_one_more(a0, b0, k);
+        if k != n { assert(b[n] <= a[n]); }
+    }
+}
+/// `n` = the start depot node find_best_start_depot_for_spawning(vt, _, du0) returned (it had room w.r.t. du0).  du1 = the table
+/// after update_depot_usage booked the new vehicle v: its postcondition usage_same_except, and v starts at (depot of n, vt)
+/// only.  Then, w.r.t. du1, the depot's per-type and total limits hold.
+pub proof fn lemma_spawn_keeps_depot_limits(s: &Schedule, n: NodeIdx, vehicle_type: VehicleTypeIdx, du0: UsageMap, du1: UsageMap, v: VehicleIdx)
+    requires
+        // find_best_start_depot_for_spawning
+        s.sp_can_spawn(n, vehicle_type, du0),
+        // update_depot_usage: nobody else moves; v starts at the chosen depot with its type and nowhere else
+        usage_same_except(du0, du1, v),
+        forall|d: DepotIdx, vt: VehicleTypeIdx| (#[trigger] sp_spawned(du1, d, vt)).contains(v) <==> (d == s.network.sp_depot_idx_of(n) && vt == vehicle_type),
+        // A-types: the network lists every vehicle type once
+        s.network.vehicle_types.ids_sorted@.no_duplicates(),
+    ensures
+        s.depot_limits_hold(n, vehicle_type, du1), // @obl C02.spawn_vehicle.depot_limits_hold_after_the_spawn
+{
+    let d = s.network.sp_depot_idx_of(n);
+    let types = s.network.vehicle_types.ids_sorted@;
+    let a = spawned_counts(du0, d, types);
+    let b = spawned_counts(du1, d, types);
+    // per type: the set of the chosen (depot, type) gains v, the sets of the depot's other types gain nothing
+    assert forall|vt: VehicleTypeIdx| spawned_of_type(du1, d, vt) <= #[trigger] spawned_of_type(du0, d, vt) + (if vt == vehicle_type { 1int } else { 0int }) by {
+        let s0 = sp_spawned(du0, d, vt);
+        let s1 = sp_spawned(du1, d, vt);
+        assert(spawned_of_type(du0, d, vt) == s0.len() && spawned_of_type(du1, d, vt) == s1.len());
+        if vt == vehicle_type {
+            assert forall|u: VehicleIdx| s1.contains(u) implies #[trigger] s0.insert(v).contains(u) by {
+                if u != v { assert(sp_spawned(du1, d, vt).contains(u) <==> sp_spawned(du0, d, vt).contains(u)); }
+            }
+            assert(s1.subset_of(s0.insert(v)));
+            vstd::set_lib::lemma_len_subset(s1, s0.insert(v));
+        } else {
+            assert forall|u: VehicleIdx| s1.contains(u) implies #[trigger] s0.contains(u) by {
+                assert(sp_spawned(du1, d, vt).contains(v) <==> (d == s.network.sp_depot_idx_of(n) && vt == vehicle_type));
+                assert(u != v);
+                assert(sp_spawned(du1, d, vt).contains(u) <==> sp_spawned(du0, d, vt).contains(u));
+            }
+            assert(s1.subset_of(s0));
+            vstd::set_lib::lemma_len_subset(s1, s0);
+        }
+    }
+    // in total: the type is listed at most once
+    let k = if types.contains(vehicle_type) { choose|k: int| 0 <= k < types.len() && types[k] == vehicle_type } else { -1int };
+    assert forall|i: int| 0 <= i < a.len() && i != k implies #[trigger] b[i] <= a[i] by {
+        assert(types[i] != vehicle_type) by {
+            if types[i] == vehicle_type { assert(types.contains(vehicle_type)); assert(types[k] == vehicle_type && i != k); }
+        }
+        assert(spawned_of_type(du1, d, types[i]) <= spawned_of_type(du0, d, types[i]) + 0);
+    }
+    if 0 <= k < a.len() {
+        assert(spawned_of_type(du1, d, types[k]) <= spawned_of_type(du0, d, types[k]) + 1);
+    }
+    lemma_isum_one_more(a, b, k);
+    assert(spawned_of_type(du1, d, vehicle_type) <= spawned_of_type(du0, d, vehicle_type) + 1);
+}
 
 // ---- model: the type guard (verified here; contract text as in slices/sched_guard.vs) -------------------
 //@item model/src/network/nodes.rs ServiceTrip::vehicle_type
@@ -226,19 +517,55 @@ impl Clone for TransitionCycle {
 // stub without contract: whether the given start depot can spawn the vehicle only selects the branch
 //@item solution/src/schedule.rs Schedule::can_depot_spawn_vehicle : trusted
 //@end
-// A-stub (not verified in any slice; contract written from the body: the first depot of
-// `network.start_depots_sorted_by_distance_to(..)` -- a sorted copy of `start_depot_nodes` -- that can spawn the vehicle)
+// verified in slice depot_choice; contract text copied from there (tools/stub_sync.py)
 //@item solution/src/schedule/modifications.rs Schedule::find_best_start_depot_for_spawning : trusted
 //@retname r
 //@sig
-    ensures self.network.start_depot_nodes@.contains(r),
+    requires
+        // instance validity; `self.network.node(first_node)`
+        self.network.wf(), self.network.has(first_node),
+        // A-index: the start depot node list holds start depot nodes of the network with a depot of the depot table
+        self.network.start_depots_ok(),
+        // magnitude: the counts of the given table fit u32
+        self.usage_counts_small(vehicle_type_idx, depot_usage@),
+        // C06 "it neither panics ...": `.expect("There should be at least the overflow depot available.")` -- the weakest
+        // precondition under which `find` returns Some: SOME start depot node of the network (e.g. the overflow depot's) can
+        // spawn a vehicle of the type w.r.t. the given table
+        self.some_depot_has_room(vehicle_type_idx, depot_usage@), // @obl C06.find_best_start_depot.expect_needs_a_depot_with_room
+    ensures
+        // a start depot node of the network ...
+        self.network.start_depot_nodes@.contains(r), // @obl C02.find_best_start_depot.chosen_depot_has_room
+        // ... C02 "the number of vehicles starting there stays within the depot's total capacity and within the per-type capacity
+        // (types not listed for a depot never start there)": can_depot_spawn_vehicle_custom_usage(r, type, GIVEN table) holds
+        self.sp_can_spawn(r, vehicle_type_idx, depot_usage@), // @obl C02.find_best_start_depot.chosen_depot_has_room
+        // the FIRST such depot in the distance order: no start depot node with room is nearer to the start location of first_node ...
+        forall|d: NodeIdx| self.network.start_depot_nodes@.contains(d) && #[trigger] self.sp_can_spawn(d, vehicle_type_idx, depot_usage@)
+            ==> dist_le(self.network.dist_to(r, self.network.sp_node(first_node).sp_start_location()),
+                        self.network.dist_to(d, self.network.sp_node(first_node).sp_start_location())), // @obl C02.find_best_start_depot.nearest_depot_with_room
+        // ... and of the equally near ones with room it is the one listed first
+        forall|d: NodeIdx| self.network.start_depot_nodes@.contains(d) && #[trigger] self.sp_can_spawn(d, vehicle_type_idx, depot_usage@) && d != r
+            && self.network.dist_to(d, self.network.sp_node(first_node).sp_start_location()) == self.network.dist_to(r, self.network.sp_node(first_node).sp_start_location())
+            ==> listed_before(self.network.start_depot_nodes@, r, d), // @obl C02.find_best_start_depot.nearest_depot_with_room
 //@end
-// A-stub (not verified in any slice; contract written from the body: the first node of
-// `network.end_depots_sorted_by_distance_from(..)` -- a sorted copy of `end_depot_nodes`)
+// verified in slice depot_choice; contract text copied from there (tools/stub_sync.py)
 //@item solution/src/schedule/modifications.rs Schedule::find_best_end_depot_for_despawning : trusted
 //@retname r
 //@sig
-    ensures r is Ok ==> self.network.end_depot_nodes@.contains(r->Ok_0),
+    requires
+        // instance validity; `self.network.node(last_node)`; A-index: the end depot node list holds nodes of the network
+        self.network.wf(), self.network.has(last_node), all_in_net(&self.network, self.network.end_depot_nodes@),
+    ensures
+        r is Ok ==> self.network.end_depot_nodes@.contains(r->Ok_0), // @obl C13.find_best_end_depot.member_of_end_depot_nodes
+        // C06: no panic; refused iff the network has no end depot node
+        r is Ok <==> self.network.end_depot_nodes@.len() > 0, // @obl C06.find_best_end_depot.ok_iff_an_end_depot_exists
+        // the nearest end depot node, whatever its capacity or balance: none is nearer to the end location of last_node ...
+        r is Ok ==> forall|d: NodeIdx| #[trigger] self.network.end_depot_nodes@.contains(d)
+            ==> dist_le(self.network.dist_from(self.network.sp_node(last_node).sp_end_location(), r->Ok_0),
+                        self.network.dist_from(self.network.sp_node(last_node).sp_end_location(), d)), // @obl C13.find_best_end_depot.nearest_end_depot_capacities_ignored
+        // ... and of the equally near ones it is the one listed first
+        r is Ok ==> forall|d: NodeIdx| #[trigger] self.network.end_depot_nodes@.contains(d) && d != r->Ok_0
+            && self.network.dist_from(self.network.sp_node(last_node).sp_end_location(), d) == self.network.dist_from(self.network.sp_node(last_node).sp_end_location(), r->Ok_0)
+            ==> listed_before(self.network.end_depot_nodes@, r->Ok_0, d), // @obl C13.find_best_end_depot.nearest_end_depot_capacities_ignored
 //@end
 //@item solution/src/schedule/modifications.rs Schedule::add_suitable_start_and_end_depot_to_path
 //@retname r
@@ -248,12 +575,38 @@ impl Clone for TransitionCycle {
         nodes@.len() >= 1,
         all_in_net(&self.network, nodes@),
         depot_lists_ok(&self.network),
+        // what the two find_best_* callees require (slices/depot_choice.vs):
+        // instance validity: the dead-head matrix is total on the stations, the locations of the nodes are locations of the network
+        self.network.wf(),
+        // A-index (how Network::new fills the list; not proved in slice network_new): the start depot node list holds StartDepot
+        // nodes of the network whose depot is in the network's depot table
+        self.network.start_depots_ok(),
+        // only if a start depot has to be chosen (the path does not start with a depot) -- the table consulted is the schedule's own:
+        // magnitude: its counts fit u32 (vehicle ids are 16 bit)
+        !self.network.sp_node(nodes@[0]).sp_is_depot() ==> self.usage_counts_small(vehicle_type_idx, self.depot_usage@),
+        // C06 / C17: some start depot node of the network has room for the type w.r.t. the usage table ("There should be at least
+        // the overflow depot available."; that the overflow depot's capacity suffices is C17, slices/network_new.vs, D5; see
+        // lemma_depot_without_type_limit_suffices).  Otherwise `expect` panics.
+        !self.network.sp_node(nodes@[0]).sp_is_depot() ==> self.some_depot_has_room(vehicle_type_idx, self.depot_usage@), // @obl C06.add_suitable_depots.expect_needs_a_depot_with_room
     ensures
         // C13: "If path does not start with a depot the vehicle is spawned from the nearest availabe depot …  Similarly,
         // if path does not end with a depot …  If the depot given in the path is not available, spawn vehicle from
         // overflow depot instead.": the given nodes in order, with depots put at the ends (see depots_added)
         r is Ok ==> depots_added(&self.network, nodes@, r->Ok_0@), // @obl C13.add_suitable_depots.path_kept_in_order
         r is Ok ==> all_in_net(&self.network, r->Ok_0@), // @obl C13.add_suitable_depots.nodes_of_the_network
+        // C02 / C13 "spawned from the nearest availabe depot": if the path does not start with a depot, the node put in front is
+        // a start depot node of the network whose depot has room for one more vehicle of the type w.r.t. the schedule's usage
+        // table -- the nearest such node (dead-head distance to the start location of the first node; ties: the one listed first)
+        r is Ok && !self.network.sp_node(nodes@[0]).sp_is_depot()
+            ==> self.best_start_depot(r->Ok_0@[0], vehicle_type_idx, self.network.sp_node(nodes@[0]).sp_start_location(), self.depot_usage@), // @obl C02.add_suitable_depots.start_depot_had_room
+        // C13 "Similarly": if the path does not end with a depot, the node put behind is the nearest end depot node of the network
+        // (capacities ignored), unless the path starts with a depot (that cannot spawn the vehicle: the stub of
+        // can_depot_spawn_vehicle has no contract) and the overflow end depot is put behind
+        r is Ok && !self.network.sp_node(nodes@[nodes@.len() - 1]).sp_is_depot()
+            ==> self.network.nearest_end_depot(r->Ok_0@[r->Ok_0@.len() - 1], self.network.sp_node(nodes@[nodes@.len() - 1]).sp_end_location())
+                || (self.network.sp_node(nodes@[0]).sp_is_depot() && r->Ok_0@[r->Ok_0@.len() - 1] == self.network.overflow_depot_idxs.2), // @obl C13.add_suitable_depots.nearest_end_depot
+        // C06: refused only if the path does not end with a depot and the network has no end depot node
+        r is Err ==> !self.network.sp_node(nodes@[nodes@.len() - 1]).sp_is_depot() && self.network.end_depot_nodes@.len() == 0, // @obl C06.add_suitable_depots.refused_only_without_end_depot
 //@end
 // verified in slice train_formation_update; contract text copied from there
 //@item solution/src/schedule/modifications.rs Schedule::update_train_formation : trusted
@@ -348,6 +701,18 @@ impl Clone for TransitionCycle {
         path_as_vec@.len() >= 1, all_in_net(&self.network, path_as_vec@), tour_len_ok(path_as_vec@),
         // A-counter (magnitude)
         self.spawn_counter_ok(path_as_vec@),
+        // what the choice of the depots needs (find_best_start_depot_for_spawning, slices/depot_choice.vs; not part of sv_ok):
+        // A-index (how Network::new fills the list; not proved in slice network_new): the start depot node list holds StartDepot
+        // nodes of the network whose depot is in the network's depot table
+        self.network.start_depots_ok(),
+        // only if a start depot has to be chosen (the path does not start with a depot):
+        // magnitude: the counts of the schedule's usage table fit u32 (vehicle ids are 16 bit)
+        !self.network.sp_node(path_as_vec@[0]).sp_is_depot() ==> self.usage_counts_small(vehicle_type_idx, self.depot_usage@),
+        // C06 / C17: some start depot node of the network has room for the type w.r.t. the schedule's usage table ("There should
+        // be at least the overflow depot available."; that the overflow depot's capacity suffices is C17, slices/network_new.vs,
+        // D5; lemma_depot_without_type_limit_suffices: a start depot node whose depot lists the type without per-type limit and
+        // where fewer vehicles start in total than its total capacity suffices).  Otherwise `expect` panics.
+        !self.network.sp_node(path_as_vec@[0]).sp_is_depot() ==> self.some_depot_has_room(vehicle_type_idx, self.depot_usage@), // @obl C06.spawn_vehicle.expect_needs_a_depot_with_room
     ensures
         // C01 / C10 "a vehicle only serves service trips of the vehicle's type": "If some node on the path is not
         // compatible with the vehicle type an error is returned", and every node of the new vehicle's tour is compatible
@@ -362,6 +727,26 @@ impl Clone for TransitionCycle {
         // covered / finding" in the header)
         r is Ok ==> activities_kept(&self.network, path_as_vec@, r->Ok_0.0.tours@[r->Ok_0.1].nodes@), // @obl C13.spawn_vehicle.adds_exactly_one_vehicle_with_the_given_path
         r is Ok ==> self.listed(vehicle_type_idx, &r->Ok_0.0, r->Ok_0.1), // @obl C13.spawn_vehicle.adds_exactly_one_vehicle_with_the_given_path
+        // C02 "the number of vehicles starting there stays within the depot's total capacity and within the per-type capacity
+        // (types not listed for a depot never start there)": if the path does not start with a depot, the new vehicle's start depot
+        // node is a start depot node of the network whose depot lists the type and had room for one more vehicle of it, per
+        // type and in total, in the OLD usage table ...
+        r is Ok && !self.network.sp_node(path_as_vec@[0]).sp_is_depot()
+            ==> self.network.start_depot_nodes@.contains(r->Ok_0.0.tours@[r->Ok_0.1].nodes@[0])
+                && self.sp_can_spawn(r->Ok_0.0.tours@[r->Ok_0.1].nodes@[0], vehicle_type_idx, self.depot_usage@), // @obl C02.spawn_vehicle.start_depot_had_room
+        // ... hence the depot's limits hold for the NEW usage table (lemma_spawn_keeps_depot_limits)
+        r is Ok && !self.network.sp_node(path_as_vec@[0]).sp_is_depot()
+            ==> self.depot_limits_hold(r->Ok_0.0.tours@[r->Ok_0.1].nodes@[0], vehicle_type_idx, r->Ok_0.0.depot_usage@), // @obl C02.spawn_vehicle.depot_limits_hold_after_the_spawn
+        // C13 "the vehicle is spawned from the nearest availabe depot": ... and it is the nearest such node (dead-head distance
+        // from the depot to the start location of the first node of the path; ties: the one listed first)
+        r is Ok && !self.network.sp_node(path_as_vec@[0]).sp_is_depot()
+            ==> self.best_start_depot(r->Ok_0.0.tours@[r->Ok_0.1].nodes@[0], vehicle_type_idx, self.network.sp_node(path_as_vec@[0]).sp_start_location(), self.depot_usage@), // @obl C13.spawn_vehicle.nearest_start_depot_with_room
+        // C13 "Similarly, if path does not end with a depot the vehicle is spawned to the nearest depot (from the end location of
+        // the last trip)": if the path neither starts nor ends with a depot, the tour ends at the nearest end depot node
+        // (capacities ignored; ties: the one listed first)
+        r is Ok && !self.network.sp_node(path_as_vec@[0]).sp_is_depot() && !self.network.sp_node(path_as_vec@[path_as_vec@.len() - 1]).sp_is_depot()
+            ==> self.network.nearest_end_depot(r->Ok_0.0.tours@[r->Ok_0.1].nodes@[r->Ok_0.0.tours@[r->Ok_0.1].nodes@.len() - 1],
+                    self.network.sp_node(path_as_vec@[path_as_vec@.len() - 1]).sp_end_location()), // @obl C13.spawn_vehicle.nearest_end_depot
         // C10 "listings sorted and match": if every type's id list held exactly the vehicles of the type, it still does
         r is Ok && self.listings_match() ==> r->Ok_0.0.listings_match(), // @obl C10.spawn_vehicle.listings_still_match
         r is Ok ==> self.formations_follow(&r->Ok_0.0, r->Ok_0.1), // @obl C13.spawn_vehicle.formations_follow_update_train_formation
@@ -415,6 +800,15 @@ impl Clone for TransitionCycle {
             assert(tours@ == self.tours@.insert(id, nt)); // @obl C13.spawn_vehicle.adds_exactly_one_vehicle_with_the_given_path
             // C09: the usage table was brought up to date for the new vehicle and left alone for everybody else
             lemma_usage_exact_step(self.depot_usage@, depot_usage@, &self.network, self.vehicles@, self.tours@, vehicles@, tours@, id); // @obl C09.spawn_vehicle.depot_usage_exact
+            // C02: the chosen start depot had room in the old table; the new vehicle was booked there and nowhere else
+            if !self.network.sp_node(path[0]).sp_is_depot() {
+                let ghost n0 = nt.nodes@[0];
+                assert(self.best_start_depot(n0, vehicle_type_idx, self.network.sp_node(path[0]).sp_start_location(), self.depot_usage@)); // @obl C02.spawn_vehicle.start_depot_had_room
+                assert forall|d: DepotIdx, vt: VehicleTypeIdx| (#[trigger] sp_spawned(depot_usage@, d, vt)).contains(id) <==> (d == self.network.sp_depot_idx_of(n0) && vt == vehicle_type_idx) by {
+                    assert(sp_spawned(depot_usage@, d, vt).contains(id) <==> starts_at(&self.network, vehicles@, tours@, id, d, vt));
+                }
+                lemma_spawn_keeps_depot_limits(self, n0, vehicle_type_idx, self.depot_usage@, depot_usage@, id); // @obl C02.spawn_vehicle.depot_limits_hold_after_the_spawn
+            }
         }
 //@end
 
